@@ -395,6 +395,9 @@ let eval (x : sx) : sx =
        | Err k -> rerr k)
   | L [A "convert1"; tp; t] -> rfloats (convert fnum (seconds_env fnum (penv tp)) Z0 (tree t))
   | L [A "metrize"; t] -> rfloats (metrize fnum (ttree t))
+  | L [A "jointempo"; _; ta; da; tb; _] ->
+      let flex x = (match x with L (A "T" :: _) -> true | _ -> false) in
+      renv (join_tempo fnum (flex ta) (flex tb) (penv ta) (zi da) (penv tb))
   | L (A "envq" :: e :: qs) -> let e = penv e in L (A "envq" :: List.map (env_query e) qs)
   | L [A "envop"; e; op] -> env_op (penv e) op
   | L [A "of_points"; L pts] ->
